@@ -49,7 +49,8 @@ WORKLOADS = {
     "any_object": ("w_erase.cpp", ()),
     "any_unique": ("w_erase.cpp", ()),
     "coro": ("w_coro.cpp", ()),
-    "io_epoll": ("w_io.cpp", ("fdlayer",)),
+    "io_epoll": ("w_io.cpp", ("fdlayer", "uring")),
+    "io_uring": ("w_io.cpp", ("fdlayer", "uring")),
 }
 
 PROPS = {
@@ -100,7 +101,8 @@ PROPS = {
             B("w_timer.cpp", "timer_thread", quick=10, thorough=150, oracles=["c07."] + RT_ALL),
             B("w_timer.cpp", "timer_unsafe", quick=5, thorough=60, oracles=["c07."] + RT_ALL),
             B("w_timer.cpp", "timer_thread", cfg="S17r", quick=5, thorough=60, oracles=["c07."] + RT_ALL),
-            B("w_io.cpp", "io_epoll", rt=("fdlayer",), quick=6, thorough=90, oracles=["c07."] + RT_LIVE),
+            B("w_io.cpp", "io_epoll", rt=("fdlayer", "uring"), quick=6, thorough=90, oracles=["c07."] + RT_LIVE),
+            B("w_io.cpp", "io_uring", rt=("fdlayer", "uring"), quick=6, thorough=90, oracles=["c07."] + RT_LIVE),
         ],
         level_text=("Seeded exploration over the real timed_single_thread_context and thread_unsafe_event_loop on a simulated clock: 1-10 timers "
                     "(schedule_at / schedule_after) with due times drawn from {past, now, equal pairs, near, 1 s, 1 h}, submitted from 1-3 threads "
@@ -111,7 +113,8 @@ PROPS = {
                     "completion, op state freed inside the completion (any later reference by the context is a shadow hit), empty queue at destruction."),
         level_note=("Trusted: usim clock/condvar stubs. Not decided here: the clause 'time_point arithmetic is exact and totally ordered for all "
                     "representable operands' is a pure function of its operands (no schedule, clock or fault): only incidentally exercised. "
-                    "io_epoll_context timers (schedule_at on a virtual timerfd) are checked on the C14 workload; io_uring timers are not (no kernel model)."),
+                    "io_epoll_context timers (schedule_at on a virtual timerfd) and io_uring_context timers (IORING_OP_TIMEOUT / TIMEOUT_REMOVE on the "
+                    "in-process ring model, a stub) are checked on the C14 workloads."),
         real=["timed_single_thread_context (+cancel_callback)", "thread_unsafe_event_loop (+sync_wait driver)", "inplace_stop_source",
               "libstdc++ std::condition_variable::wait_until / this_thread::sleep_until wrappers"],
         stub=["clock_gettime/nanosleep/pthread_cond_clockwait on the simulated clock", "pthread mutex/cond/create/join (usim)", "heap (usim arena)"],
@@ -422,10 +425,12 @@ PROPS = {
     "C14": dict(
         title="I/O contexts complete each operation once with the true result; no stale state",
         batches=[
-            B("w_io.cpp", "io_epoll", rt=("fdlayer",), quick=16, thorough=300, oracles=["c14.", "c07."] + RT_ALL),
-            B("w_io.cpp", "io_epoll", cfg="S17r", rt=("fdlayer",), quick=6, thorough=120, oracles=["c14.", "c07."] + RT_ALL),
+            B("w_io.cpp", "io_epoll", rt=("fdlayer", "uring"), quick=14, thorough=300, oracles=["c14.", "c07."] + RT_ALL),
+            B("w_io.cpp", "io_epoll", cfg="S17r", rt=("fdlayer", "uring"), quick=5, thorough=120, oracles=["c14.", "c07."] + RT_ALL),
+            B("w_io.cpp", "io_uring", rt=("fdlayer", "uring"), quick=14, thorough=300, oracles=["c14.", "c07."] + RT_ALL),
+            B("w_io.cpp", "io_uring", cfg="S17r", rt=("fdlayer", "uring"), quick=5, thorough=120, oracles=["c14.", "c07."] + RT_ALL),
         ],
-        level_text=("io_epoll_context only. The library's epoll code runs unmodified on the real kernel's epoll, eventfd and pipe objects (private "
+        level_text=("io_epoll_context: the library's epoll code runs unmodified on the real kernel's epoll, eventfd and pipe objects (private "
                     "to the process, one sim thread at a time, hence deterministic); time is virtual: timerfd is an eventfd written by the "
                     "simulated clock, epoll_wait(-1) polls with timeout 0 and otherwise blocks in the simulator until a write/close/epoll_ctl/"
                     "timer expiry. Seeded runs: one run(stop_token) thread; 1-3 producers start 0-10 schedule()/schedule_at() operations "
@@ -438,12 +443,25 @@ PROPS = {
                     "loss/duplication, breaks the sequence); a read completed with done left its buffer untouched; done only after a stop "
                     "request; op states and buffers are freed right after completion, so any later reference by the context (including a stale "
                     "epoll registration delivering a dangling data.ptr) is a shadow-memory hit; every descriptor created in the run is closed "
-                    "exactly once; run(stop) returns; context destructor."),
-        level_note=("NOT covered: io_uring_context (the kernel model planned in DESIGN.md 2.6 was not built), mmap_region, sockets, injected OS "
+                    "exactly once; run(stop) returns; context destructor. "
+                    "io_uring_context: the same workload over an in-process model of the kernel side of the ring (sim/rt/uring_model.cpp, a STUB "
+                    "written from io_uring_enter(2) for NOP/READV/WRITEV/POLL_ADD/TIMEOUT(abs)/TIMEOUT_REMOVE/ASYNC_CANCEL): io_uring_setup/enter "
+                    "and the three ring mmaps are interposed, SQEs are issued in ring order inside io_uring_enter(), requests that would block stay "
+                    "in flight and complete when the blocked submitter is woken by a write/close/timer; data moves through real descriptors. "
+                    "The byte channel is a pipe re-opened by path with open_file_read_only/open_file_write_only (async_read_some_at / "
+                    "async_write_some_at), and a regular file is written and read at drawn offsets against a byte-array model (the file is also "
+                    "read back through the harness's own descriptor after every operation). Extra fault: completion delay/reordering "
+                    "(a ready request is left in flight); extra oracles: the user memory the kernel would read or write (iovec, buffer, "
+                    "timespec) is alive at that moment, each ring mapping is unmapped exactly once with its own length, the ring fd is closed. "
+                    "Two defects found by this workload were confirmed on the real kernel with a native probe (findings/probes/) and fixed."),
+        level_note=("NOT covered: sockets/accept, IORING_OP_* beyond the seven listed, -EALREADY from ASYNC_CANCEL, full submission/completion "
+                    "rings (more than 256 unflushed or 512 pending requests), injected OS "
                     "errors (the epoll read/write paths compare readv/writev results with -EAGAIN although libc returns -1/errno; error "
                     "reporting is therefore not exercised), EINTR from epoll_wait (run() documents no recovery and throws)."),
         real=["io_epoll_context (run loop, remote queue + eventfd wake-up, timers, read/write senders, cancellation)", "safe_file_descriptor, monotonic_clock",
-              "Linux epoll / eventfd / pipe (real kernel objects)"],
-        stub=["clock_gettime, timerfd (virtual time), blocking epoll_wait (simulated blocking)", "pthread layer, heap (usim)"],
+              "io_uring_context (run loop, ring accounting, remote queue poll, timers, read/write senders, refCount cancel protocol), mmap_region, io_uring_syscall.cpp",
+              "Linux epoll / eventfd / pipe / regular file (real kernel objects)"],
+        stub=["clock_gettime, timerfd (virtual time), blocking epoll_wait (simulated blocking)",
+              "the kernel side of io_uring (in-process model: setup/enter/mmap interposed)", "pthread layer, heap (usim)"],
     ),
 }
